@@ -167,9 +167,9 @@ func run(r *evid.Run) {
 	r.Rule("case = (base schema in {proto2, proto3, edition 2023} or the syntax-neutral base, edit operator + variant, position = every element the operator applies to (top / nested1 / nested2 / second file / file level), surrounding in {none, unrelated additive edits before, after}, config); " +
 		"configs: use:[FILE,PACKAGE,WIRE_JSON,WIRE] (all rules active) x {v1beta1,v1,v2} for every case, plus each of FILE / PACKAGE / WIRE_JSON / WIRE and each expected single rule x 3 versions for every case without surrounding (thorough: in all surroundings); " +
 		"field-type table = every ordered pair of the 15 scalar kinds + enum + message + group on the slot field of the message at each of the 4 positions (quick: singular field, no surroundings, category configs at the top position; thorough: also repeated field and oneof member, all surroundings); " +
-		"default-value table = per scalar kind + enum a row of fields whose defaults step through the kind's boundary values (32/64-bit min/max and their neighbours, neighbours beyond 2^53 / 2^24, inf, nan) upwards and downwards, on every standard message and as extensions; "+
-		"aliased enum numbers (2 and 3 names) deleted with every subset of the names reserved x number reserved or not; type-name changes on singular / repeated / oneof-member / map-value / extension / delimited (field and file default) message and enum fields; "+
-		"file syntax over {proto2, proto3, edition 2023, no declaration}; "+
+		"default-value table = per scalar kind + enum a row of fields whose defaults step through the kind's boundary values (32/64-bit min/max and their neighbours, neighbours beyond 2^53 / 2^24, inf, nan) upwards and downwards, on every standard message and as extensions; " +
+		"aliased enum numbers (2 and 3 names) deleted with every subset of the names reserved x number reserved or not; type-name changes on singular / repeated / oneof-member / map-value / extension / delimited (field and file default) message and enum fields; " +
+		"file syntax over {proto2, proto3, edition 2023, no declaration}; " +
 		"a case is distinct and non-trivial when the reference model expects at least one annotation for it (key = instance id / surrounding)")
 	r.Assume("expectations claim only what a rule's Purpose text and the rule documentation state; edits whose status the docs leave open (repeated<->map for the wire cardinality rules, STRING_PIECE->STRING, json_name side effect of a rename, proto2 <-> no syntax declaration, explicit zero default <-> no default) carry no expectation")
 	r.Assume("an enum value is 'deleted without reserving the name' when its own name is not reserved in the new enum, also when an alias of the same number did get reserved")
